@@ -301,7 +301,78 @@ def s_unspents():
                      txgen.txs(big=0, counts=False), us)
 
 
+# ------------------------------------------------------------------ one long-lived Tx object edited in place
+
+
+def o_tx_history(case):
+    """id / w_id / as_bin / as_hex asked of ONE Tx object between in-place edits of its fields: every answer describes the
+    transaction as it is at that moment (an id or serialisation cached across an edit is a violation)"""
+    Tx = CLASSES[case["coin"]]
+    m = expand_tx(case["tx"])
+    tx = to_pycoin(Tx, m)
+    labels, edited, asked = ["coin=" + case["coin"]], False, False
+    for step, op in enumerate(case["ops"]):
+        k = op[0]
+        if k == "q":
+            what = op[1]
+            if what == "id":
+                got, want = tx.id(), refser.txid(m)
+            elif what == "w_id":
+                got, want = tx.w_id(), refser.wtxid(m)
+            elif what == "hash":
+                got, want = tx.hash(), bytes.fromhex(refser.txid(m))[::-1]
+            elif what == "as_hex":
+                got, want = tx.as_hex(), refser.ser_tx(m).hex()
+            else:
+                got, want = tx.as_bin(), refser.ser_tx(m)
+            if got != want:
+                _bad("tx:history:%s-stale-or-wrong" % what, "step %d of %s: %s() does not describe the transaction as edited (%s)" % (
+                    step, [o[:2] for o in case["ops"]], what, _shape(m)))
+            if edited and asked:
+                labels.append("query-after-edit-after-query")
+            asked = True
+            continue
+        edited = True
+        if k == "version":
+            m["version"] = tx.version = op[1]
+        elif k == "lock_time":
+            m["lock_time"] = tx.lock_time = op[1]
+        elif k == "sequence":
+            j = op[1] % len(m["ins"])
+            m["ins"][j]["sequence"] = tx.txs_in[j].sequence = op[2]
+        elif k == "in-script":
+            j = op[1] % len(m["ins"])
+            b = bytes.fromhex(op[2])
+            m["ins"][j]["script"] = b
+            tx.txs_in[j].script = b
+        elif k == "out-value" and m["outs"]:
+            j = op[1] % len(m["outs"])
+            m["outs"][j]["value"] = tx.txs_out[j].coin_value = op[2]
+        elif k == "witness":
+            j = op[1] % len(m["ins"])
+            w = [bytes.fromhex(x) for x in op[2]]
+            m["ins"][j]["witness"] = w
+            tx.set_witness(j, w)
+    return sorted(set(labels))
+
+
+def s_tx_history():
+    from gen.common import weighted
+    u32 = st.sampled_from([0, 1, 2, 0xfffffffe, 0xffffffff, 0x80000000])
+    q = st.tuples(st.just("q"), st.sampled_from(["id", "id", "w_id", "hash", "as_bin", "as_hex"])).map(list)
+    edit = st.one_of(st.tuples(st.just("version"), u32).map(list), st.tuples(st.just("lock_time"), u32).map(list),
+                     st.tuples(st.just("sequence"), st.integers(0, 5), u32).map(list),
+                     st.tuples(st.just("in-script"), st.integers(0, 5), st.sampled_from(["", "51", "00" * 3, "ab" * 253])).map(list),
+                     st.tuples(st.just("out-value"), st.integers(0, 5), st.sampled_from([0, 1, 2**63, 2**64 - 1, 5000])).map(list),
+                     st.tuples(st.just("witness"), st.integers(0, 5), st.sampled_from([[], [""], ["", ""], ["aa"], ["", "bb" * 300]])).map(list))
+    return st.builds(lambda coin, tx, ops: {"coin": coin, "tx": tx, "ops": ops}, st.sampled_from(["BTC", "LTC", "BCH", "BTG"]),
+                     txgen.txs(big=0), st.lists(weighted((3, q), (2, edit)), min_size=3, max_size=10))
+
+
 SUBCHECKS = [
+    SubCheck("tx_history", o_tx_history, strategy=s_tx_history, budget=(1500, 60000),
+             nontrivial=lambda c, l: "query-after-edit-after-query" in l,
+             rule="one Tx object: 3-10 operations, each a query (id, w_id, hash, as_bin, as_hex) or an in-place edit (version, lock time, a sequence, an input script, an output value, a witness stack incl. stacks of empty items); every answer equals the reference for the transaction as it is at that moment; non-trivial = a query after an edit that followed a query"),
     SubCheck("tx_wire", o_tx_wire, strategy=s_tx_wire, budget=(4000, 100000), nontrivial=nt_tx,
              rule="generated transactions (1..4 inputs, rarely 0xfc/0xfd/0xfe inputs or outputs, scripts/witness items on compact-size "
                   "boundaries, 64-bit amounts, full-range 32-bit fields, mixed/empty witness stacks; BTC and LTC): as_bin == reference "
